@@ -3,38 +3,56 @@
 Part A: `filter_hypergraph` on Hypergraph / TemporalHypergraph / MultiplexHypergraph / DirectedHypergraph
         vs `C19.filterHg` (lean/Hgxv/Model/C19.lean) + an oracle written from the property's words.
 Part B: `get_svh` vs `C19.svh` (exact rational binomial tail) + an oracle with `fractions.Fraction`."""
+import decimal
+import functools
 import math
 import signal
+import sys
 from fractions import Fraction
 
 import hgxv
 
+if hasattr(sys, "set_int_max_str_digits"):
+    sys.set_int_max_str_digits(0)      # exact model p-values of the magnitude stream have > 4300 digits
+
 RULE = ("A: random containers of the four types (3-7 nodes, int or string labels, 1-9 records of size 1-4 with sub-/"
         "super-set records injected so that shrinking collides, times 0-3 / 3 layers / disjoint non-empty sides, weighted "
-        "or not, weights k/4 or ints, metadata over 4 attributes and 7 values incl. None and missing attributes), node and "
-        "edge criteria None / {} / 1-2 attributes with 1-3 allowed values (incl. None and values nobody has), both modes, "
-        "both keep_edges; distinct by (type, content, criteria, mode, keep_edges); non-trivial when the criteria keep >=1 "
-        "and remove >=1 item. B: weighted/unweighted Hypergraphs (3-9 nodes, 1-12 hyperedges of size 1-5, integer weights "
-        "with a heavy tail), every max_order in 1..6 and 10, alpha in {0.01 (mostly), 0.05, 0.2, 0.5}; distinct by "
-        "(edges, weights, max_order, alpha); non-trivial when >=2 sizes are reported and some but not all rows are validated "
-        "or >=1 row has weight >= 2")
+        "or not, weights k/4 or ints, metadata over 4 attributes and 10 values incl. None, the falsy 0 and '', an unhashable "
+        "list, and missing attributes), in 30% a history with removals before the filter (records through an extra node "
+        "inserted among the real ones and removed by remove_edge / remove_node with either keep_edges), node and edge "
+        "criteria None / {} / 1-2 attributes with 1-3 allowed values (incl. None and values nobody has), both modes, both "
+        "keep_edges, in 30% a second filter_hypergraph call on the same object; distinct by (type, content, criteria, mode, "
+        "keep_edges); non-trivial when the criteria keep >=1 and remove >=1 item. B: Hypergraphs with positive integer "
+        "weights in four styles: random (3-9 nodes, 1-12 hyperedges of size 1-5, heavy-tailed weights, a few heavy disjoint "
+        "ones), twins (2-5 nearly disjoint hyperedges per size with equal or neighbouring weights: tied / close p-values), "
+        "big_size (sizes 6-12, weights 20-400, shared core: prod K_i >= 2^63) and big_weight (sizes 2-6, weights 200-3000, "
+        "one case per quick run and 3% of the thorough magnitude cases beyond 2^15 / 2^16); in 30% each a history (hyperedges "
+        "inserted and removed, weights arriving in two instalments, isolated nodes); max_order 0-6, 10, around the largest "
+        "size, 12, 20; alpha from {0.01, 0.05, 0.2, 0.5, 1.0} or (40%, twins 70%) strictly between two neighbouring "
+        "breakpoints C(n_a,n) p_(i)/i of the exact p-values, preferring alphas for which the positions below the step-up "
+        "line are NOT a prefix; mp=True for 1 case in 90 (quick) / 250 (thorough); distinct by (edges, weights, max_order, "
+        "alpha, mp); non-trivial when >=2 sizes are reported and some but not all rows are validated, or >=1 row has "
+        "weight >= 2, or some table's positions below the line are not a prefix")
 ASSUMPTIONS = ["hyperedges are duplicate-free node tuples; directed ones have disjoint non-empty sides (quantifier)",
                "class invariants of the containers (C01-C04): distinct keys, every node of a key is a node, an unweighted "
                "container has all weights 1",
                "labels/layers are mapped to their rank, metadata attributes and values to tokens (== on the value pool "
                "coincides with token equality) before they reach the model",
-               "get_svh: positive integer weights (quantifier)"]
-TRUSTED = ["scipy.stats.binom.sf is a parameter of the model; compared on every generated row with the exact rational tail "
-           "(tolerance 1e-9 absolute)",
+               "get_svh: positive integer weights (quantifier); alpha in (0, 1]"]
+TRUSTED = ["scipy.stats.binom.sf is a parameter of the model; compared on every generated row with the binomial tail summed "
+           "from the definition in 150-digit decimal arithmetic (self-tested against the exact rational sum on every run): "
+           "relative tolerance 1e-9 (+1e-300 for underflow), else the row must lie between the tails for "
+           "prod K_i/N * (1 -+ 1e-13) (counted, svh_p_conditioning_*); rows whose total weight allows it (rows*N^2 <= 3e5) "
+           "are also compared with the model's exact rational tail",
            "threshold decisions are taken on the Python p-values converted exactly (float.as_integer_ratio); decisions whose "
-           "margin is below 1e-12 are skipped and counted (svh_margin_skips)"]
+           "relative margin is below 1e-12 are skipped and counted (svh_margin_skips) unless both sides are the same "
+           "number and the line alpha*i/C is free of rounding"]
 BUDGET_S = {"quick": 45, "thorough": 780}
 
 ATTRS = ["type", "age", "country", "k"]
-VALUES = ["person", "location", "animal", 25, 30, 2.5, "x"]   # + None; pairwise != and no 1/True/1.0 collisions
+# + None; pairwise != and no 1/True/1.0 collisions; the last three are the falsy values 0 and '' and an unhashable one
+VALUES = ["person", "location", "animal", 25, 30, 2.5, "x", 0, "", ["x", 1]]
 LAYERS = ["alpha", "beta", "gamma"]
-TOL = 1e-9
-MARGIN = Fraction(1, 10 ** 12)
 
 
 class Hang(Exception):
@@ -97,7 +115,8 @@ def gen_md(rng, p_empty=0.25):
         return {}
     md = {}
     for a in rng.sample(ATTRS, rng.randint(1, 3)):
-        md[a] = rng.choice(VALUES + [None]) if rng.random() < 0.9 else None
+        v = rng.choice(VALUES + [None]) if rng.random() < 0.9 else None
+        md[a] = list(v) if isinstance(v, list) else v
     return md
 
 
@@ -110,7 +129,7 @@ def gen_crit(rng, used_vals):
     crit = {}
     for a in rng.sample(ATTRS, rng.choice([1, 1, 1, 2])):
         pool = [v for v in used_vals.get(a, [])] * 3 + VALUES + [None]
-        crit[a] = [rng.choice(pool) for _ in range(rng.randint(1, 3))]
+        crit[a] = [list(v) if isinstance(v, list) else v for v in (rng.choice(pool) for _ in range(rng.randint(1, 3)))]
         if rng.random() < 0.05:
             crit[a] = []
     return crit
@@ -187,6 +206,20 @@ def gen_filter_case(rng):
             "mode": rng.choice(["keep", "remove"]), "keep_edges": rng.random() < 0.5}
     if rng.random() < 0.1:
         case["edge_criteria"] = None
+    if rng.random() < 0.3:
+        # history with removals before the filter: records through a node outside `labels` are inserted among the
+        # real ones and taken out again (hyperedge by hyperedge, or with their node), so that ids have gaps
+        g = "zz" if isinstance(labels[0], str) else 99
+        ghosts = []
+        for _ in range(rng.randint(1, 3)):
+            others = rng.sample(labels, rng.randint(1, min(3, n)))
+            key = [[g], others] if ty == "D" else [g] + others
+            ghosts.append([rng.randint(0, len(recs)), key, extra(), weight(), gen_md(rng)])
+        case["ghosts"] = {"label": g, "records": ghosts, "how": rng.choice(["edges", "node", "node_keep"])}
+    if rng.random() < 0.3:
+        # a second call on the same (already filtered) object
+        case["then"] = [{"node_criteria": gen_crit(rng, used_n), "edge_criteria": gen_crit(rng, used_e),
+                         "mode": rng.choice(["keep", "remove"]), "keep_edges": rng.random() < 0.5}]
     return case
 
 
@@ -197,17 +230,37 @@ def build(case):
     h = cls(weighted=weighted)
     for x, md in case["node_md"]:
         h.add_node(x, metadata=dict(md))
-    for nodes, ex, w, md in case["records"]:
+
+    def add(nodes, ex, w, md):
         if ty == "D":
-            edge = (tuple(nodes[0]), tuple(nodes[1]))
-            h.add_edge(edge, weight=w, metadata=dict(md))
+            h.add_edge((tuple(nodes[0]), tuple(nodes[1])), weight=w, metadata=dict(md))
         elif ty == "H":
             h.add_edge(tuple(nodes), weight=w, metadata=dict(md))
         else:
             h.add_edge(tuple(nodes), ex, weight=w, metadata=dict(md))
+
+    gh = case.get("ghosts") or {"records": []}
+    for i, (nodes, ex, w, md) in enumerate(case["records"]):
+        for pos, *g in gh["records"]:
+            if pos == i:
+                add(*g)
+        add(nodes, ex, w, md)
+    for pos, *g in gh["records"]:
+        if pos >= len(case["records"]):
+            add(*g)
     for x in case["labels"]:
         if rng_free_isolated(case, x):
             h.add_node(x)
+    if gh["records"]:
+        if gh["how"] == "edges":
+            for key in [k for k in h.get_edges() if gh["label"] in key_nodes(ty, k)]:
+                h.remove_edge(key)
+            h.remove_node(gh["label"])
+        else:
+            # "node_keep": the shrunk records stay behind as ordinary records of the content before the filter
+            h.remove_node(gh["label"], keep_edges=(gh["how"] == "node_keep"))
+        if gh["label"] in h.get_nodes() or any(gh["label"] in key_nodes(ty, k) for k in h.get_edges()):
+            raise ValueError("the history did not remove its extra node")
     return h
 
 
@@ -356,55 +409,76 @@ def oracle_filter(case, ty, weighted, nodes0, edges0, nodes1, edges1):
     return bad
 
 
+def snapshot(content):
+    nodes, edges = content
+    return ({x: dict(md) if isinstance(md, dict) else md for x, md in nodes.items()},
+            {k: (w, dict(md) if isinstance(md, dict) else md) for k, (w, md) in edges.items()})
+
+
 def check_filter(ctx, drv, case):
-    from hypergraphx.filters import filter_hypergraph
     ty = case["type"]
     ctx.count("filter_type_" + ty)
     h, err = guarded(lambda: build(case))
     if err:
-        # construction through add_node/add_edge is C01-C04's business; not a C19 observation
+        # construction through add_node/add_edge/remove_* is C01-C04's business; not a C19 observation
         ctx.count("filter_build_failed")
         return
     pre, err = guarded(lambda: content_of(h, ty))
     if err:
         ctx.count("filter_build_failed")
         return
-    nodes0, edges0 = pre
-    nodes0 = {x: dict(md) if isinstance(md, dict) else md for x, md in nodes0.items()}
-    edges0 = {k: (w, dict(md) if isinstance(md, dict) else md) for k, (w, md) in edges0.items()}
+    nodes0, edges0 = snapshot(pre)
     weighted = bool(h.is_weighted())
     rank = {x: i for i, x in enumerate(sorted(case["labels"]))}
+    steps = [{k: case[k] for k in ("node_criteria", "edge_criteria", "mode", "keep_edges")}] + list(case.get("then") or [])
+    if case.get("ghosts"):
+        ctx.count("filter_history_with_removals")
+    for idx, step in enumerate(steps):
+        if idx:
+            ctx.count("filter_second_call_on_same_object")
+        res = filter_step(ctx, drv, case, h, ty, weighted, rank, step, steps[idx + 1:], nodes0, edges0, idx)
+        if res is None:
+            return
+        nodes0, edges0 = res
+
+
+def filter_step(ctx, drv, case, h, ty, weighted, rank, step, later, nodes0, edges0, idx):
+    """one `filter_hypergraph` call on `h` whose content before the call is (nodes0, edges0);
+    returns the content after it (None when something was reported)"""
+    from hypergraphx.filters import filter_hypergraph
+    tag = "" if idx == 0 else f"[call {idx + 1} on the same object] "
     hmeta0, err = guarded(lambda: dict(h.get_hypergraph_metadata()))
-    ncrit, ecrit, mode, keep = case["node_criteria"], case["edge_criteria"], case["mode"], case["keep_edges"]
+    ncrit, ecrit, mode, keep = step["node_criteria"], step["edge_criteria"], step["mode"], step["keep_edges"]
+    ocase = {**step, "then": later}      # what the oracle reads
     n_sel = sum(is_selected(md, ncrit, mode) for md in nodes0.values() if isinstance(md, dict))
     e_sel = sum(is_selected(v[1], ecrit, mode) for v in edges0.values() if isinstance(v[1], dict))
     nontrivial = (0 < n_sel < len(nodes0)) or (0 < e_sel < len(edges0))
     key = repr((ty, weighted, sorted(nodes0.items(), key=repr), sorted(edges0.items(), key=repr), ncrit, ecrit, mode, keep))
-    ctx.case(key, nontrivial, sample=case)
+    ctx.case(key, nontrivial, sample=case if idx == 0 else None)
     ctx.count("filter_mode_%s_keep%d" % (mode, keep))
     if ncrit is None or ecrit is None:
         ctx.count("filter_criteria_none")
 
     _, err = guarded(lambda: filter_hypergraph(h, node_criteria=ncrit, edge_criteria=ecrit, mode=mode, keep_edges=keep))
     if err:
-        ctx.violation(case, f"filter_hypergraph on {type(h).__name__} (mode={mode}, keep_edges={keep}) does not return: {err}")
-        return
+        ctx.violation(case, f"{tag}filter_hypergraph on {type(h).__name__} (mode={mode}, keep_edges={keep}) does not return: {err}")
+        return None
     post, err = guarded(lambda: content_of(h, ty))
     if err:
-        ctx.violation(case, f"the container cannot be listed after filter_hypergraph: {err}")
-        return
+        ctx.violation(case, f"{tag}the container cannot be listed after filter_hypergraph: {err}")
+        return None
     nodes1, edges1 = post
     try:
         t0 = tokens_of(ty, nodes0, edges0, rank)
     except ValueError:
         ctx.count("filter_build_failed")
-        return
+        return None
     try:
         t1 = tokens_of(ty, nodes1, edges1, rank)
     except (ValueError, KeyError, TypeError) as e:
-        ctx.violation(case, f"content after the filter is malformed: {e!r}")
-        return
-    bad = oracle_filter(case, ty, weighted, nodes0, edges0, nodes1, edges1)
+        ctx.violation(case, f"{tag}content after the filter is malformed: {e!r}")
+        return None
+    bad = oracle_filter(ocase, ty, weighted, nodes0, edges0, nodes1, edges1)
     # nothing else changes: weighted flag, hypergraph metadata, adjacency consistent with the records
     inc, err = guarded(lambda: incidence_of(h, ty, nodes1))
     if err:
@@ -423,7 +497,7 @@ def check_filter(ctx, drv, case):
     if hmeta0 is not None and hmeta1 != hmeta0:
         bad.append(f"hypergraph metadata changed: {hmeta0!r} -> {hmeta1!r}")
     for b in bad[:3]:
-        ctx.violation(case, b)
+        ctx.violation(case, tag + b)
     if keep:
         R = set(nodes0) - set(nodes1)
         imgs = [shrunk_key(ty, k, R) for k in edges0]
@@ -431,8 +505,9 @@ def check_filter(ctx, drv, case):
             ctx.count("filter_dropped_records")
         if len(set(i for i in imgs if i is not None)) < len([i for i in imgs if i is not None]):
             ctx.count("filter_shrink_merges")
+    after = None if bad else snapshot((nodes1, edges1))
     if drv is None:
-        return
+        return after
     tn0, te0 = t0
     order = list(te0)
     line = " ".join([
@@ -443,8 +518,8 @@ def check_filter(ctx, drv, case):
         crit_wire(ncrit), crit_wire(ecrit), mode, "1" if keep else "0"])
     ans = drv.ask(line)
     if ans == "rej":
-        ctx.disagree({**case, "line": line}, "the model's filter raises (absent node or key) while the implementation returned")
-        return
+        ctx.disagree({**case, "line": line}, f"{tag}the model's filter raises (absent node or key) while the implementation returned")
+        return None
     try:
         a_nodes, a_edges, a_ws = ans.split(" ")
         mn = {l[0]: tuple(l[1:]) for l in hgxv.dec_lists(a_nodes)}
@@ -457,24 +532,189 @@ def check_filter(ctx, drv, case):
         if len(recs) != len(ws) or len(me) != len(recs):
             raise ValueError("duplicate or unbalanced records")
     except Exception as e:  # noqa: BLE001
-        ctx.disagree({**case, "line": line}, f"model answer unreadable: {ans!r} ({e!r})")
-        return
+        ctx.disagree({**case, "line": line}, f"{tag}model answer unreadable: {ans!r} ({e!r})")
+        return None
     if mn != t1[0]:
-        ctx.disagree({**case, "line": line}, f"nodes: model {sorted(mn.items())}, implementation {sorted(t1[0].items())}")
+        ctx.disagree({**case, "line": line}, f"{tag}nodes: model {sorted(mn.items())}, implementation {sorted(t1[0].items())}")
+        return None
     elif me != t1[1]:
-        ctx.disagree({**case, "line": line}, f"records: model {sorted(me.items())}, implementation {sorted(t1[1].items())}")
+        ctx.disagree({**case, "line": line}, f"{tag}records: model {sorted(me.items())}, implementation {sorted(t1[1].items())}")
+        return None
+    return after
 
 
 # ---------------------------------------------------------------------------------------------
 # Part B
 
-def gen_svh_case(rng):
-    n = rng.randint(3, 9)
-    if rng.random() < 0.2:
-        labels = sorted(rng.sample([chr(97 + i) for i in range(15)], n))
-    else:
-        labels = sorted(rng.sample(range(0, 25), n))
-    weighted = rng.random() < 0.8
+TWO63 = 2 ** 63
+REL = Fraction(1, 10 ** 9)            # relative tolerance of a reported p-value
+FLOOR = Fraction(1, 10 ** 300)        # below this a p-value may have underflowed
+RMARGIN = Fraction(1, 10 ** 12)       # relative margin of a float threshold decision
+MODEL_COST = 300000                   # rows * N^2 above which a case is not sent to the model (its `choose` is factorial based)
+FIXED_ALPHAS = [0.01] * 4 + [0.05, 0.2, 0.5, 1.0]
+
+
+DCTX = decimal.Context(prec=150, Emax=decimal.MAX_EMAX, Emin=decimal.MIN_EMIN)
+
+
+def upper_sum(w, N, a, c, b):
+    """sum_{j=w}^{N} C(N,j) (a/b)^j (c/b)^(N-j) to 150 significant digits. Horner: G_N = 1,
+    G_j = C(N,j) q^(N-j) + p G_{j+1}, result p^w G_w; every term is positive, so the relative error is < 10 N 1e-150"""
+    with decimal.localcontext(DCTX):
+        p, q = decimal.Decimal(a) / decimal.Decimal(b), decimal.Decimal(c) / decimal.Decimal(b)
+        G = t = decimal.Decimal(1)
+        for j in range(N - 1, w - 1, -1):
+            t = t * (j + 1) / (N - j) * q          # C(N,j) q^(N-j)
+            G = G * p + t
+        return p ** w * G
+
+
+@functools.lru_cache(maxsize=20000)
+def tail_exact(w, N, a, b):
+    """P(X >= w) for X ~ Binomial(N, a/b) from the definition, to > 100 significant digits, as a Fraction (0 when it is
+    below 1e-330, i.e. far below the float range). Above the mean the upper sum is taken, otherwise 1 - lower sum
+    (>= ~1/2): no cancellation on either side"""
+    if w <= 0:
+        return Fraction(1)
+    if w > N or a <= 0:
+        return Fraction(0)
+    if a >= b:
+        return Fraction(1)
+    g = math.gcd(a, b)
+    a, b = a // g, b // g
+    c = b - a
+    with decimal.localcontext(DCTX):
+        if w * b > N * a:
+            val = upper_sum(w, N, a, c, b)
+        else:
+            val = 1 - upper_sum(N - w + 1, N, c, a, b)
+        if val < decimal.Decimal("1e-330"):
+            return Fraction(0)
+        return Fraction(+val)
+
+
+def naive_tail(w, N, p):
+    q = 1 - p
+    return sum(math.comb(N, j) * p ** j * q ** (N - j) for j in range(w, N + 1))
+
+
+def self_test():
+    """the fast exact tail against the definition on small parameters"""
+    for N in (1, 2, 5, 9, 40):
+        for a, b in ((1, 3), (2, 3), (1, 1), (5, 7), (1, 100), (99, 100), (10 ** 6 - 1, 10 ** 6), (1, 10 ** 9)):
+            for w in range(0, N + 2):
+                want = naive_tail(w, N, Fraction(a, b))
+                got = tail_exact(w, N, a, b)
+                if (got != 0 if want < Fraction(1, 10 ** 330) else abs(got - want) > want / 10 ** 120):
+                    raise RuntimeError(f"harness self-test: tail_exact({w},{N},{a},{b}) = {got}, definition {want}")
+
+
+def exact_tables(E, bound):
+    """the property's words on the weighted hyperedge list E = [(sorted node tuple, weight)]:
+    {n: (N, na, C, [(e, w, ks)])} for the sizes n in [2, bound] that occur"""
+    out = {}
+    for n in sorted({len(e) for e, _ in E if 2 <= len(e) <= bound}):
+        En = [(e, w) for e, w in E if len(e) == n]
+        N = sum(w for _, w in En)
+        K = {}
+        for e, w in En:
+            for i in e:
+                K[i] = K.get(i, 0) + w
+        out[n] = (N, len(K), math.comb(len(K), n), [(e, w, tuple(K[i] for i in e)) for e, w in En])
+    return out
+
+
+def exact_p(n, N, w, ks):
+    return tail_exact(w, N, math.prod(ks), N ** n)
+
+
+def p_ok(p, n, N, w, ks):
+    """(ok?, exact value): p is the binomial tail up to REL (relative), or lies between the exact tails of
+    prod K_i/N * (1 -+ 1e-13) (a float product cannot be better conditioned than that)"""
+    want = exact_p(n, N, w, ks)
+    pf = Fraction(p)
+    if abs(pf - want) <= REL * want + FLOOR:
+        return True, want, False
+    a, b, s = math.prod(ks), N ** n, 10 ** 13
+    lo = tail_exact(w, N, a * (s - 1), b * s)
+    hi = tail_exact(w, N, min(a * (s + 1), b * s), b * s)
+    return (lo * (1 - REL) - FLOOR <= pf <= hi * (1 + REL) + FLOOR), want, True
+
+
+def representable(x):
+    """the rational x is a double"""
+    try:
+        return Fraction(float(x)) == x
+    except OverflowError:
+        return False
+
+
+def undecidable(p, line, exact):
+    """a float comparison of p with `line` cannot be trusted: closer than RMARGIN (relative), unless both are the
+    same number and the line is computed without rounding (`exact`)"""
+    d = abs(p - line)
+    return d <= RMARGIN * line and not (d == 0 and exact)
+
+
+def step_up(ps, alpha, C):
+    """threshold from the property's words with bonf = alpha / C: the largest i*bonf such that the i-th smallest p-value
+    is below it; tight = some comparison is not decidable for float arithmetic;
+    prefix = the positions below the line are exactly the first ones;
+    exact(i) = alpha/C, i*alpha/C and i*alpha are doubles, so any float evaluation of the line is exact"""
+    bonf = alpha / C
+    s = sorted(ps)
+
+    def exact(i):
+        return representable(bonf) and representable(i * bonf) and representable(i * alpha)
+
+    thr, tight, mask, thr_exact = Fraction(0), False, [], True
+    for i, p in enumerate(s, start=1):
+        if undecidable(p, i * bonf, exact(i)):
+            tight = True
+        mask.append(p < i * bonf)
+        if p < i * bonf:
+            thr, thr_exact = i * bonf, exact(i)
+    prefix = all(mask[:sum(mask)])
+    return thr, tight, prefix, thr_exact
+
+
+def alpha_breakpoints(E, bound):
+    """per size the values r_i = C * p_(i) / i: position i is below the line iff alpha > r_i"""
+    out = []
+    for n, (N, na, C, rows) in exact_tables(E, bound).items():
+        ps = sorted(exact_p(n, N, w, ks) for _, w, ks in rows)
+        out.append((n, [p * C / i for i, p in enumerate(ps, start=1)]))
+    return out
+
+
+def pick_alpha(rng, E, bound):
+    """an alpha in [1e-12, 1] strictly between two neighbouring breakpoints, preferably one for which the positions
+    below the line are not a prefix (some i < j with r_j < alpha <= r_i); None when there is no room"""
+    lo_all, hi_all = Fraction(1, 10 ** 12), Fraction(1)
+    bps = alpha_breakpoints(E, bound)
+    grid = sorted({r for _, rs in bps for r in rs if lo_all < r < hi_all} | {lo_all, hi_all})
+    gaps = [(u, v) for u, v in zip(grid, grid[1:]) if v > u * (1 + Fraction(1, 10 ** 6))]
+    if not gaps:
+        return None, False
+    nonmono = []
+    for u, v in gaps:
+        mid = (u + v) / 2
+        for _, rs in bps:
+            m = [r < mid for r in rs]
+            if not all(m[:sum(m)]):
+                nonmono.append((u, v))
+                break
+    want_nonmono = bool(nonmono) and rng.random() < 0.75
+    u, v = rng.choice(nonmono if want_nonmono else gaps)
+    t = Fraction(rng.choice([1, 2, 2, 3]), 4)
+    x = float(u + (v - u) * t)
+    if not (u * (1 + Fraction(1, 10 ** 8)) < Fraction(x) < v * (1 - Fraction(1, 10 ** 8))):
+        return None, False
+    return x, want_nonmono
+
+
+def svh_edges_random(rng, labels, weighted):
+    n = len(labels)
     edges, seen = [], set()
     style = rng.random()
     for _ in range(rng.randint(1, 12)):
@@ -504,46 +744,221 @@ def gen_svh_case(rng):
                 seen.add(e)
                 edges.append([list(e), rng.choice([5, 8, 12, 16, 20])])
         rng.shuffle(edges)
-    return {"part": "svh", "labels": labels, "weighted": weighted, "edges": edges,
-            "max_order": rng.choice([1, 2, 3, 3, 4, 4, 5, 6, 10]),
-            "alpha": rng.choice([0.01] * 5 + [0.05, 0.2, 0.5]), "mp": False}
+    return edges
 
 
-def exact_tail(w, N, p):
-    q = 1 - p
-    return sum(math.comb(N, j) * p ** j * q ** (N - j) for j in range(w, N + 1))
+def svh_edges_twins(rng, labels):
+    """per size 2-5 (nearly) disjoint hyperedges of (nearly) equal weight, so that the sorted p-values are tied or close
+    and p_(i)/i is not increasing; plus a few light hyperedges"""
+    pool = labels[:]
+    rng.shuffle(pool)
+    edges, seen = [], set()
+    for size in rng.sample([2, 2, 3, 4], rng.choice([1, 1, 2])):
+        w0 = rng.choice([2, 3, 4, 5, 6, 8, 9, 12])
+        k = rng.randint(2, 5)
+        own = pool[:]
+        rng.shuffle(own)
+        for _ in range(k):
+            if len(own) < size:
+                break
+            e = tuple(sorted(own[:size]))
+            own = own[size - (1 if rng.random() < 0.15 else 0):]
+            if e in seen:
+                continue
+            seen.add(e)
+            edges.append([list(e), max(1, w0 + rng.choice([0, 0, 0, 0, 1, -1, -1, 2, -3]))])
+    for _ in range(rng.randint(0, 3)):
+        size = min(len(labels), rng.choice([1, 2, 2, 3]))
+        e = tuple(sorted(rng.sample(labels, size)))
+        if e not in seen:
+            seen.add(e)
+            edges.append([list(e), rng.choice([1, 1, 2])])
+    rng.shuffle(edges)
+    return edges
 
 
-def step_up(ps, bonf):
-    """threshold from the property's words: the largest i*bonf such that the i-th smallest p-value is below it"""
-    s = sorted(ps)
-    thr, tight = Fraction(0), False
-    for i, p in enumerate(s, start=1):
-        if abs(p - i * bonf) < MARGIN:
-            tight = True
-        if p < i * bonf:
-            thr = i * bonf
-    return thr, tight
+def svh_edges_magnitude(rng, labels, big_weights, heavy):
+    """magnitude stream: a core of nodes shared by all hyperedges of a size plus a few own nodes, so that
+    prod_i K_i/N stays moderate while prod_i K_i itself is astronomically large:
+    big sizes (6-12) x weights 20-400, or (big_weights) sizes 2-6 x weights 200-3000 (thorough: up to 70000)"""
+    edges, seen = [], set()
+    sizes = rng.sample([2, 3, 4, 5, 6] if big_weights else [6, 7, 8, 9, 10, 11, 12], rng.choice([1, 1, 2]))
+    if heavy >= 1:
+        sizes = sizes[:1]
+    for size in sizes:
+        size = min(size, len(labels))
+        k = 2 if heavy >= 1 else rng.choice([1, 1, 2, 2, 3, 4])
+        n_own = 0 if k == 1 else rng.randint(1, min(3, size - 1))
+        pool = labels[:]
+        rng.shuffle(pool)
+        core, rest = pool[:size - n_own], pool[size - n_own:]
+        made = 0
+        for _ in range(k + 3):
+            if len(rest) < n_own or made == k:
+                break
+            e = tuple(sorted(core + rng.sample(rest, n_own)))
+            if e in seen or len(e) < 2:
+                continue
+            seen.add(e)
+            made += 1
+            if big_weights:
+                # get_svh needs ~40 us per unit of weight: the really large ones only in the thorough tier
+                if rng.random() < heavy and not any(w > 3000 for _, w in edges):
+                    w = rng.choice([rng.randint(32768, 34000), rng.randint(65536, 70000)])     # beyond 16-bit integers
+                else:
+                    hi = rng.choice([600, 1500, 3000])
+                    w = rng.randint(hi // 3, hi)
+            else:
+                w = rng.choice([rng.randint(20, 90), rng.randint(80, 200), rng.randint(150, 400)])
+            edges.append([list(e), w])
+    for _ in range(rng.randint(0, 3)):
+        size = min(len(labels), rng.choice([2, 2, 3]))
+        e = tuple(sorted(rng.sample(labels, size)))
+        if e not in seen:
+            seen.add(e)
+            edges.append([list(e), rng.choice([1, 2, 7, 40, 300])])
+    rng.shuffle(edges)
+    return edges
+
+
+def gen_svh_case(rng, heavy=False, huge=False):
+    """heavy: weights up to 70000 may occur (thorough tier); huge: they do (one case per quick run)"""
+    r = rng.random()
+    style = "random" if r < 0.5 else "twins" if r < 0.8 else "big_size" if r < 0.93 else "big_weight"
+    if huge:
+        style = "big_weight"
+    n = rng.randint(3, 9) if style == "random" else rng.randint(5, 12) if style == "twins" else rng.randint(8, 16)
+    if rng.random() < 0.2:
+        labels = sorted(rng.sample([chr(97 + i) for i in range(20)], n))
+    else:
+        labels = sorted(rng.sample(range(0, 40), n))
+    weighted = style != "random" or rng.random() < 0.8
+    if style == "random":
+        edges = svh_edges_random(rng, labels, weighted)
+    elif style == "twins":
+        edges = svh_edges_twins(rng, labels)
+    else:
+        edges = svh_edges_magnitude(rng, labels, style == "big_weight", 1.0 if huge else 0.03 if heavy else 0.0)
+    top = max([len(e) for e, _ in edges] + [2])
+    if huge:
+        bound = rng.choice([top, 12])
+    elif style in ("big_size", "big_weight"):
+        bound = rng.choice([top, top, 12, 20, top - 1, 10])
+    else:
+        bound = rng.choice([0, 1, 2, 3, 3, 4, 4, 5, 6, 10])
+    case = {"part": "svh", "style": style, "labels": labels, "weighted": weighted, "edges": edges,
+            "max_order": bound, "alpha": rng.choice(FIXED_ALPHAS), "mp": False}
+    # history: hyperedges that are inserted and removed again, weights that arrive in two instalments, isolated nodes
+    hist = {}
+    if rng.random() < 0.3:
+        present = {tuple(e) for e, _ in edges}
+        ghosts = []
+        for _ in range(rng.randint(1, 3)):
+            e = tuple(sorted(rng.sample(labels, min(n, rng.choice([2, 2, 3, 4])))))
+            if e not in present:
+                present.add(e)
+                ghosts.append([rng.randint(0, len(edges)), list(e), rng.choice([1, 2, 5, 30])])
+        hist["ghost_edges"] = ghosts
+    if weighted and rng.random() < 0.3:
+        hist["split"] = [i for i, (e, w) in enumerate(edges) if w >= 2 and rng.random() < 0.5]
+    if rng.random() < 0.3:
+        used = {x for e, _ in edges for x in e}
+        hist["isolated"] = [x for x in labels if x not in used][:3]
+    if hist:
+        case["history"] = hist
+    if len(edges) >= 2 and rng.random() < 0.15:
+        present = {tuple(e) for e, _ in edges} | {tuple(g[1]) for g in hist.get("ghost_edges") or []}
+        e_old, w_old = rng.choice(edges)
+        used = sorted({x for e, _ in edges for x in e})
+        e_new = tuple(sorted(rng.sample(used if len(used) >= len(e_old) else labels, len(e_old))))
+        if e_new not in present:
+            case["again"] = {"remove": [list(e_old), w_old], "add": list(e_new)}
+    if rng.random() < (0.7 if style == "twins" else 0.4):
+        E = [(tuple(e), (w if weighted else 1)) for e, w in edges]
+        a, nonmono = pick_alpha(rng, E, bound)
+        if a is not None:
+            case["alpha"] = a
+            case["alpha_how"] = "between breakpoints" + (", not a prefix" if nonmono else "")
+    return case
+
+
+def build_svh(case):
+    from hypergraphx import Hypergraph
+    weighted = case["weighted"]
+    hist = case.get("history") or {}
+    h = Hypergraph(weighted=weighted)
+    ghosts = hist.get("ghost_edges") or []
+    split = set(hist.get("split") or [])
+    edges = [(tuple(e), int(w)) for e, w in case["edges"]]
+
+    def add(e, w, i):
+        # the tuple is handed over in a rotated order: Hypergraph.add_edge canonicalises it
+        e_in = e[i % len(e):] + e[:i % len(e)]
+        h.add_edge(e_in, weight=w if weighted else None)
+
+    for i, (e, w) in enumerate(edges):
+        for pos, ge, gw in ghosts:
+            if pos == i:
+                add(tuple(ge), gw, i)
+        if i in split and weighted and w >= 2:
+            add(e, w // 2, i)            # the rest of the weight follows after the loop
+        else:
+            add(e, w, i)
+    for pos, ge, gw in ghosts:
+        if pos >= len(edges):
+            add(tuple(ge), gw, pos)
+    for x in hist.get("isolated") or []:
+        h.add_node(x)
+    for i, (e, w) in enumerate(edges):
+        if i in split and weighted and w >= 2:
+            add(e, w - w // 2, i + 1)
+    for pos, ge, gw in ghosts:
+        h.remove_edge(tuple(sorted(ge)))
+    return h
 
 
 def check_svh(ctx, drv, case):
-    from hypergraphx import Hypergraph
+    h, err = guarded(lambda: build_svh(case))
+    if err:
+        ctx.count("svh_build_failed")        # construction is C01's business
+        return
+    if case.get("history"):
+        ctx.count("svh_history")
+    if not svh_round(ctx, drv, case, h, ""):
+        return
+    again = case.get("again")
+    if again:
+        # the SAME object, changed in place so that the numbers of nodes and hyperedges stay what they were
+        def change():
+            e_old, w_old = again["remove"]
+            h.remove_edge(tuple(e_old))
+            h.add_edge(tuple(again["add"]), weight=w_old if case["weighted"] else None)
+        _, err = guarded(change)
+        if err:
+            ctx.count("svh_build_failed")
+            return
+        ctx.count("svh_second_call_on_same_object")
+        svh_round(ctx, drv, case, h, "[second call, after one hyperedge of the same object was replaced] ")
+
+
+def svh_round(ctx, drv, case, h, tag):
+    """one get_svh call on h, judged on the content h has now; False when something was reported"""
     from hypergraphx.filters.statistical_filters import get_svh
-    edges = [(tuple(e), int(w)) for e, w in case["edges"]]
     bound, alpha, mp = case["max_order"], case["alpha"], case.get("mp", False)
-    h = Hypergraph(weighted=case["weighted"])
-    for i, (e, w) in enumerate(edges):
-        # the tuple is handed over in a rotated order: Hypergraph.add_edge canonicalises it
-        e_in = e[i % len(e):] + e[:i % len(e)]
-        h.add_edge(e_in, weight=w if case["weighted"] else None)
-    E = [(tuple(e), h.get_weight(e)) for e in h.get_edges()]
-    rank = {x: i for i, x in enumerate(sorted(case["labels"]))}
-    res, err = guarded(lambda: get_svh(h, max_order=bound, alpha=alpha, mp=mp), 60 if mp else 20)
+    style = case.get("style", "random")
+    E, err = guarded(lambda: [(tuple(e), h.get_weight(e)) for e in h.get_edges()])
+    if err or any(not isinstance(w, int) or isinstance(w, bool) or w < 1 or tuple(sorted(e)) != e for e, w in E):
+        ctx.count("svh_build_failed")
+        return False
+    ctx.count("svh_style_" + style)
+    labels = sorted(set(case["labels"]) | {x for e, _ in E for x in e})
+    rank = {x: i for i, x in enumerate(labels)}
+    res, err = guarded(lambda: get_svh(h, max_order=bound, alpha=alpha, mp=mp), 60 if mp else 30)
     ctx.count("svh_mp" if mp else "svh_serial")
     if err:
         ctx.case(repr((E, bound, alpha)), False, sample=case)
-        ctx.violation(case, f"get_svh(max_order={bound}, alpha={alpha}, mp={mp}) does not return: {err}")
-        return
+        ctx.violation(case, f"{tag}get_svh(max_order={bound}, alpha={alpha}, mp={mp}) does not return: {err}")
+        return False
     bad = []
     try:
         got = {}
@@ -554,8 +969,8 @@ def check_svh(ctx, drv, case):
             got[int(size)] = rows
     except Exception as e:  # noqa: BLE001
         ctx.case(repr((E, bound, alpha)), False, sample=case)
-        ctx.violation(case, f"result of get_svh is not a dict of DataFrames with edge/pvalue/fdr: {e!r}")
-        return
+        ctx.violation(case, f"{tag}result of get_svh is not a dict of DataFrames with edge/pvalue/fdr: {e!r}")
+        return False
     for size, rows in got.items():
         for e, p, f in rows:
             if not math.isfinite(p) or not (0.0 <= p <= 1.0 + 1e-9):
@@ -563,54 +978,58 @@ def check_svh(ctx, drv, case):
     if bad:
         ctx.case(repr((E, bound, alpha, mp)), False, sample=case)
         for b in bad[:3]:
-            ctx.violation(case, b)
-        return
+            ctx.violation(case, tag + b)
+        return False
     # ---- oracle: the property's words
-    sizes = sorted({len(e) for e, _ in E if 2 <= len(e) <= bound})
+    tables = exact_tables(E, bound)
+    sizes = sorted(tables)
     if sorted(got) != sizes:
         bad.append(f"sizes reported {sorted(got)}, hyperedge sizes within [2,{bound}] are {sizes}")
     a_exact = Fraction(alpha)
     skips = 0
-    n_valid = n_rows = 0
+    n_valid = n_rows = n_nonprefix = n_overflow = 0
     for n in sizes:
         if n not in got:
             continue
         rows = got[n]
-        En = [(e, w) for e, w in E if len(e) == n]
+        N, na, C, exact_rows = tables[n]
+        par = {e: (w, ks) for e, w, ks in exact_rows}
         listed = [tuple(sorted(r[0])) for r in rows]
-        for e, _ in En:
-            c = listed.count(tuple(sorted(e)))
+        for e in par:
+            c = listed.count(e)
             if c != 1:
                 bad.append(f"hyperedge {e!r} is reported {c} times under size {n}")
         for e in listed:
-            if e not in [tuple(sorted(x)) for x, _ in En]:
+            if e not in par:
                 bad.append(f"row {e!r} under size {n} is not a size-{n} hyperedge of the input")
-        N = sum(w for _, w in En)
-        wdict = {tuple(sorted(e)): w for e, w in En}
         ps = []
         for e, p, f in rows:
             e = tuple(sorted(e))
-            if e not in wdict:
+            if e not in par:
                 continue
-            pr = Fraction(1)
-            for i in e:
-                pr *= Fraction(sum(w for x, w in En if i in x), N)
-            want = exact_tail(wdict[e], N, pr)
-            if not (abs(Fraction(p) - want) <= Fraction(TOL)) or p != p:
-                bad.append(f"p-value of {e!r} is {p!r}, P(Bin({N}, {pr}) >= {wdict[e]}) = {float(want)!r}")
+            w, ks = par[e]
+            if math.prod(ks) >= TWO63:
+                n_overflow += 1
+            ok, want, cond = p_ok(p, n, N, w, ks)
+            if cond:
+                ctx.count("svh_p_conditioning_" + ("accepted" if ok else "rejected"))
+            if not ok:
+                bad.append(f"p-value of {e!r} is {p!r}, P(Bin({N}, prod K_i/N) >= {w}) with K = {list(ks)} is {float(want)!r}")
             ps.append(Fraction(p))
-        na = len({i for e, _ in En for i in e})
-        bonf = a_exact / math.comb(na, n)
-        thr, tight = step_up(ps, bonf)
+        bonf = a_exact / C
+        thr, tight, prefix, thr_exact = step_up(ps, a_exact, C)
+        if not prefix:
+            n_nonprefix += 1
         if tight:
             skips += 1
         else:
             for e, p, f in rows:
-                if abs(Fraction(p) - thr) < MARGIN:
+                if undecidable(Fraction(p), thr, thr_exact):
                     skips += 1
                     continue
                 if f != (Fraction(p) < thr):
-                    bad.append(f"hyperedge {e!r} (size {n}) has p={p!r} and validated={f}, the step-up threshold is {float(thr)!r}")
+                    bad.append(f"hyperedge {e!r} (size {n}) has p={p!r} and validated={f}, the step-up threshold is {float(thr)!r}"
+                               f" (sorted p-values {sorted(float(x) for x in ps)[:8]}, alpha/C({na},{n}) = {float(bonf)!r})")
         for e, p, f in rows:
             for e2, p2, f2 in rows:
                 if p <= p2 and f2 and not f:
@@ -620,13 +1039,23 @@ def check_svh(ctx, drv, case):
     ctx.count("svh_margin_skips", skips)
     ctx.count("svh_rows", n_rows)
     ctx.count("svh_rows_validated", n_valid)
-    nontrivial = (len(sizes) >= 2 and 0 < n_valid < n_rows) or any(w >= 2 and 2 <= len(e) <= bound for e, w in E)
+    ctx.count("svh_tables_not_a_prefix", n_nonprefix)
+    ctx.count("svh_rows_prod_K_over_2^63", n_overflow)
+    if "alpha_how" in case:
+        ctx.count("svh_alpha_between_breakpoints")
+    nontrivial = ((len(sizes) >= 2 and 0 < n_valid < n_rows) or any(w >= 2 and 2 <= len(e) <= bound for e, w in E)
+                  or n_nonprefix > 0)
     ctx.case(repr((E, bound, alpha, mp)), nontrivial, sample=case)
     for b in bad[:3]:
-        ctx.violation(case, b)
-    if drv is None or bad:
-        return
+        ctx.violation(case, tag + b)
+    if bad:
+        return False
+    if drv is None:
+        return True
     # ---- model
+    if sum(len(t[3]) * t[0] ** 2 for t in tables.values()) > MODEL_COST:
+        ctx.count("svh_model_skipped_large")
+        return True
     line = " ".join(["svh", str(bound), hgxv.enc_num(a_exact), hgxv.enc_lists([[rank[x] for x in e] for e, _ in E]),
                      hgxv.enc_list([w for _, w in E])])
     ans = drv.ask(line)
@@ -642,10 +1071,10 @@ def check_svh(ctx, drv, case):
             model[int(n)] = (int(N), int(na), Fraction(bonf), Fraction(thr), rr)
     except Exception as e:  # noqa: BLE001
         ctx.disagree({**case, "line": line}, f"model answer unreadable: {ans[:200]!r} ({e!r})")
-        return
+        return False
     if sorted(model) != sorted(got):
         ctx.disagree({**case, "line": line}, f"sizes: model {sorted(model)}, implementation {sorted(got)}")
-        return
+        return False
     lines2, meta2 = [], []
     for n in sorted(got):
         N, na, bonf, thr, rr = model[n]
@@ -655,7 +1084,7 @@ def check_svh(ctx, drv, case):
             ctx.disagree({**case, "line": line}, f"size {n}: model rows {[r[0] for r in rr]}, implementation rows {ge}")
             continue
         for (e, ks, w, p, f), (_, gp, gf) in zip(rr, rows):
-            if abs(Fraction(gp) - p) > Fraction(TOL):
+            if abs(Fraction(gp) - p) > REL * p + FLOOR and not p_ok(gp, n, N, w, tuple(ks))[0]:
                 ctx.disagree({**case, "line": line}, f"size {n} row {e}: model p = {float(p)!r} (w={w}, N={N}, K={ks}), implementation {gp!r}")
         lines2.append("thr " + hgxv.enc_num(bonf) + " " + hgxv.enc_list([Fraction(r[1]) for r in rows]))
         meta2.append((n, bonf, rows))
@@ -664,13 +1093,15 @@ def check_svh(ctx, drv, case):
         t = Fraction(t)
         flags = [x == 1 for x in hgxv.dec_list(flags)]
         ps = [Fraction(r[1]) for r in rows]
-        if any(abs(p - (i + 1) * bonf) < MARGIN for i, p in enumerate(sorted(ps))):
+        _, tight, _, t_exact = step_up(ps, a_exact, tables[n][2])
+        if tight:
             continue
         for (e, gp, gf), mf in zip(rows, flags):
-            if abs(Fraction(gp) - t) < MARGIN:
+            if undecidable(Fraction(gp), t, t_exact):
                 continue
             if gf != mf:
                 ctx.disagree({**case, "line": ln}, f"size {n} row {e!r}: model validated={mf} (threshold {float(t)!r}), implementation {gf}")
+    return True
 
 
 # ---------------------------------------------------------------------------------------------
@@ -687,18 +1118,19 @@ def safely(ctx, f, drv, case):
 
 
 def run(ctx):
+    self_test()
     drv = ctx.driver() if ctx.model_available else None
     rng = ctx.rng
     nA = ctx.scale(2000, 100000)
-    nB = ctx.scale(350, 12000)
+    nB = ctx.scale(450, 12000)
     budget = ctx.time_left()
     for i in range(nA):
         safely(ctx, check_filter, drv, gen_filter_case(rng))
-        if ctx.too_many() or (ctx.time_left() is not None and ctx.time_left() < (budget or 0) * 0.45 + 5):
+        if ctx.too_many() or (ctx.time_left() is not None and ctx.time_left() < (budget or 0) * 0.55 + 5):
             break
     for i in range(nB):
-        case = gen_svh_case(rng)
-        if ctx.tier == "thorough" and i % 250 == 7:
+        case = gen_svh_case(rng, heavy=ctx.tier == "thorough", huge=(i == 20))
+        if i % 250 == 7 if ctx.tier == "thorough" else i % 90 == 7:
             case["mp"] = True
         safely(ctx, check_svh, drv, case)
         if ctx.too_many() or (ctx.time_left() is not None and ctx.time_left() < 5):
